@@ -46,10 +46,33 @@ def optJson (o : Opt) : Json :=
 def parseCall (j : Json) : JE Call := do
   pure { g := (← parseNodes (← J.arr j "g")), ixs := (← J.natList j "ixs") }
 
-/-- case: {"store":[opt…], "calls":[{"g":[node…],"ixs":[i…]}…]}  →
+/-- {"op":"base","ty":n,"vals":[…],"handlers":[…]} | {"op":"designate","src":i,"paths":[[…]…]} -/
+def parseBuildOp (j : Json) : JE (BuildOp × Option Opt) := do
+  match (← J.str j "op") with
+  | "base" => pure (.base, some { ty := (← J.nat j "ty"), vals := (← J.natList j "vals"),
+                                  handlers := (← J.natList j "handlers"), paths := [] })
+  | "designate" => do
+    let paths ← (← J.arr j "paths").mapM (fun p => do (← J.asArr p).mapM J.asStr)
+    pure (.designate (← J.nat j "src") paths, none)
+  | k => throw s!"bad build op {k}"
+
+/-- the Option values a construction sequence yields: attributes of the base each one derives
+    from, designated paths by the slice model (`builtPaths`) -/
+def builtStore (ops : List (BuildOp × Option Opt)) : List Opt :=
+  let attrs := ops.foldl (fun (acc : List Opt) (x : BuildOp × Option Opt) =>
+    match x with
+    | (_, some a) => acc ++ [a]
+    | (.designate src _, none) => acc ++ [(acc[src]?).getD default]
+    | (.base, none) => acc ++ [default]) []
+  let paths := builtPaths Expected.C16.facts.designateCopies goGrow (ops.map (·.1))
+  (attrs.zip paths).map (fun (a, p) => { a with paths := p })
+
+/-- case: {"store":[opt…] | "build":[op…], "calls":[{"g":[node…],"ixs":[i…]}…]}  →
     {"results":[{"err":…,"entries":[…]}…], "store":[opt…]} -/
 def handle (c : Json) : JE Json := do
-  let store ← (← J.arr c "store").mapM parseOpt
+  let store ← match c.getObjVal? "build" with
+    | .ok (.arr ops) => do pure (builtStore (← ops.toList.mapM parseBuildOp))
+    | _ => (← J.arr c "store").mapM parseOpt
   let calls ← (← J.arr c "calls").mapM parseCall
   let (rs, st) := runCalls Expected.C16.facts store calls
   pure <| Json.mkObj [("results", J.mkArr (rs.map resultJson)), ("store", J.mkArr (st.map optJson))]
